@@ -20,10 +20,7 @@ MANIFEST = dict(
           '(exact maps). Direct judgement: warning lines of the real binary (kind + position + exactly once per name) against '
           'the extracted specification on generated grammars with used/unused/undefined names, specialisations for target and '
           'other shells, references inside words and through used/unused definitions; exit status 0; script unchanged when the '
-          'unused definitions are deleted. Props/C15b.v (about Model/Main.v, the command as a trace of effects, tied to the binary '
-          'by maintie.py under C06): the warnings on stderr are exactly Diag.warning_messages of the validated grammar, each once, '
-          'sorted, before anything else; for any two choices of the warning sets the traces minus the warnings -- exit status and '
-          'script write included -- are equal.'),
+          'unused definitions are deleted.'),
     design='6 C15',
     technique='Coq theorems on the check.rs model vs Spec.Warnings + extracted-model/implementation correspondence + judgement of the binary')
 
